@@ -271,13 +271,18 @@ fn timed(lines: &[String], bounds_s: &[f64]) -> Vec<String> {
 
 pub fn run(tier: Tier) -> i32 {
     let rep = Report::new("C01", tier, "model_checking");
-    rep.set_rule("SCOPE: voices {V0, P1(V0)} + generated G(ns in {2,3}, stage in {0..3}, nstate in {1,2,3,5,7}, 6 window sets incl. two with even-length windows, gv on/off) x utterances (empty; 1 label over the cover set Lambda and one-group recombinations; label pairs; corpus windows of 3 and 8; structurally extreme typed labels) x every condition with <= d deviations from the default over the per-setter alphabets; each case synthesised by the real Engine inside catch_unwind; distinct = (voice, condition, utterance); non-trivial = non-empty utterance");
+    rep.set_rule("SCOPE: voices {V0, P1(V0)} + generated G(ns in {2,3}, stage in {0..3}, nstate in {1,2,3,5,7}, 6 window sets incl. two with even-length windows, gv on/off) plus six voices with spectral orders 64..129, a four-window set and a 31-tap low-pass stream) x utterances (empty; 1 label over the cover set Lambda and one-group recombinations; label pairs; corpus windows of 3 and 8; structurally extreme typed labels) x every condition with <= d deviations from the default over the per-setter alphabets; each case synthesised by the real Engine inside catch_unwind; distinct = (voice, condition, utterance); non-trivial = non-empty utterance");
     rep.assume("labels outside Lambda/RECOMB1/corpus windows, conditions with more deviations than the bound and utterances longer than 8 labels are not explored; stable range = conservative reading (|F1|,|F2|,|F1+F2| <= 4 on a 33-point grid; LSP: K>0, gaps >= pi/(4(order+1)))");
     let st = Stats { in_range: Default::default(), out_range: Default::default(), short_mean: Default::default(), nonfinite_ok: Default::default() };
     let corpus = labels::corpus();
     let lam = labels::lambda(&corpus);
     // ---------- generated voices ----------
-    let fam = gen_family(tier.pick(&[0], &[0, 1]));
+    let mut fam = gen_family(tier.pick(&[0], &[0, 1]));
+    // beyond the small scope: spectral orders around and above 64 and 128 (fixed-size scratch arrays, u8 counters),
+    // a four-window set, long low-pass filters
+    for (order, stage, ns, wset, lpf) in [(65usize, 0usize, 3usize, 2usize, 3usize), (64, 0, 2, 1, 3), (80, 0, 3, 8, 31), (129, 0, 3, 1, 5), (65, 1, 3, 2, 3), (66, 2, 2, 8, 3)] {
+        fam.push(GenCfg { ns, stage, nstate: 2, wset, gv: stage == 0 && order < 100, order, lpf_taps: lpf, log_gain: stage == 2, ..GenCfg::default() });
+    }
     let sub_labels: Vec<String> = ["sil", "a", "k", "N", "pau", "i"].iter().filter_map(|c| lam.iter().find(|l| labels::centre(l) == *c).cloned()).collect();
     let mut gutts: Vec<Utt> = vec![Utt::Strs(vec![])];
     for l in &sub_labels {
